@@ -210,6 +210,82 @@ def _outcome(call, args):
         return "raised:" + type(exc).__name__
 
 
+def _values(obj, depth=0):
+    """Flatten a result into a list of arrays / scalars / tags for a tolerant comparison (see _same_values)."""
+    import pandas as pd
+
+    out = []
+    if depth > 6:
+        return out
+    if isinstance(obj, BaseException):
+        return ["raised:" + type(obj).__name__]
+    if isinstance(obj, np.ndarray):
+        return [obj]
+    if isinstance(obj, (pd.Series, pd.Index)):
+        return [np.asarray(obj)]
+    if isinstance(obj, pd.DataFrame):
+        for col in obj.columns:
+            out += [str(col), np.asarray(obj[col])]
+        return out
+    if type(obj).__name__ == "DataArray":
+        out += [str(obj.name), str(obj.dims), np.asarray(obj.values)]
+        for name in obj.coords:
+            out += [str(name), np.asarray(obj.coords[name].values)]
+        return out
+    if type(obj).__name__ == "Dataset":
+        for name in obj.variables:
+            out += [str(name), str(obj[name].dims), np.asarray(obj[name].values)]
+        return out
+    if isinstance(obj, (list, tuple)):
+        out.append("seq%d" % len(obj))
+        for item in obj:
+            out += _values(item, depth + 1)
+        return out
+    if isinstance(obj, dict):
+        for key in sorted(obj, key=str):
+            out += [str(key)] + _values(obj[key], depth + 1)
+        return out
+    if isinstance(obj, (bool, int, float, np.generic)):
+        return [np.asarray(obj)]
+    return [core.digest(obj, flags=False)]
+
+
+def _same_values(got, want):
+    """
+    Equal up to the last bits: numpy's reductions and BLAS calls are not bit-reproducible across differently aligned buffers,
+    and threads change what the allocator hands out, so results of calls made concurrently are compared with their serial
+    twins at 1e-7 of the result's magnitude (integers, booleans, names, shapes and NaN positions exactly). A call that picked up
+    another call's data differs by the size of the data, not by round-off.
+    """
+    a, b = _values(got), _values(want)
+    if len(a) != len(b):
+        return False
+    for x, y in zip(a, b):
+        if isinstance(x, str) or isinstance(y, str):
+            if x != y:
+                return False
+            continue
+        if x.shape != y.shape or x.dtype.kind != y.dtype.kind:
+            return False
+        if x.dtype.kind == "f":
+            scale = float(np.nanmax(np.abs(y[np.isfinite(y)]))) if np.isfinite(y).any() else 1.0
+            if not np.allclose(x, y, rtol=1e-7, atol=1e-7 * max(scale, 1e-300), equal_nan=True):
+                return False
+        elif x.dtype.kind == "O":
+            if core.digest(x, flags=False) != core.digest(y, flags=False):
+                return False
+        elif not np.array_equal(x, y):
+            return False
+    return True
+
+
+def _result_or_exception(call, args):
+    try:
+        return call(args)
+    except Exception as exc:  # noqa: BLE001 - an exception is an outcome too (scipy returns NaN next to sliver triangles, a score then raises)
+        return exc
+
+
 def _scribble_on_result(result, args):
     """Overwrite (in place) every writable float/int ndarray in result that does not share memory with an argument array."""
     import pandas as pd
@@ -540,14 +616,18 @@ def run_case(run, tap, stream, index, rng):
             sets = [dict((name, (call, args)) for name, call, args in _specs(vd, np.random.default_rng(int(rng.integers(0, 2 ** 31))), n=npts)) for _ in range(nsets)]
             names = [name for name in sets[0] if all(name in other for other in sets)]
             chunk = [name for k, name in enumerate(names) if k % 3 == index % 3]
+            # SplineCV re-selects its damping by an argmax over scores inside the call: last-bit noise (see _same_values) may flip a
+            # near-tie, which is not a dependence on concurrency - its fit runs concurrently only in the shared-instance part below
+            run.count("skipped:concurrent_specs_with_internal_argmax", sum(1 for name in chunk if name.startswith("SplineCV.")))
+            chunk = [name for name in chunk if not name.startswith("SplineCV.")]
             for name in chunk:
                 alone = []
                 for spec in sets:
                     call, args = spec[name]
-                    alone.append(core.digest(call(args), flags=False))
+                    alone.append(_result_or_exception(call, args))
 
                 def job(call, args):
-                    return lambda: [core.digest(call(args), flags=False) for _ in range(2)]
+                    return lambda: [_result_or_exception(call, args) for _ in range(2)]
                 inject = 0.3 if (index < 3 or (index // 3) % 2 == 0) else 0.0
                 results = core.run_threads([job(*spec[name]) for spec in sets], timeout=300, yield_probability=inject, seed=index)
                 run.evaluated("concurrent")
@@ -559,7 +639,7 @@ def run_case(run, tap, stream, index, rng):
                     elif exc is not None:
                         run.violation("concurrent", "%s raised %r when %d calls on different data ran concurrently (the same call succeeds alone)" % (name, exc, nsets),
                                       {"spec": name}, key="concurrent-raised:" + name)
-                    elif any(d != alone[k] for d in res):
+                    elif any(not _same_values(d, alone[k]) for d in res):
                         run.violation("concurrent", "%s: a call returned something else while %d calls on different data of the same shapes ran concurrently than when made alone" % (name, nsets),
                                       {"spec": name, "threads": nsets}, key="concurrent:" + name)
             # one fitted estimator shared by all threads, each asking for something else (tiles of a map gridded in parallel)
@@ -574,9 +654,9 @@ def run_case(run, tap, stream, index, rng):
                     for k in range(nsets):
                         reg = [float(e0.min() + 0.1 * k * np.ptp(e0)), float(e0.max() + 0.2 * k * np.ptp(e0)), float(n0.min() - 0.15 * k * np.ptp(n0)), float(n0.max())]
                         dims = [("northing", "easting"), ("lat", "lon"), ("y", "x")][k % 3]
-                        asks.append((lambda reg, dims, k: lambda: core.digest(
-                            (est.grid(region=reg, shape=(5, 6), dims=dims), est.scatter(region=reg, size=15, random_state=k), est.predict((e0[k:k + 7] + k, n0[k:k + 7])),
-                             est.profile((reg[0], reg[2]), (reg[1], reg[3]), 9, dims=dims)), flags=False))(reg, dims, k))
+                        asks.append((lambda reg, dims, k: lambda: _result_or_exception(lambda a: (
+                            est.grid(region=reg, shape=(5, 6), dims=dims), est.scatter(region=reg, size=15, random_state=k), est.predict((e0[k:k + 7] + k, n0[k:k + 7])),
+                            est.profile((reg[0], reg[2]), (reg[1], reg[3]), 9, dims=dims)), None))(reg, dims, k))
                     alone = [ask() for ask in asks]
                     results = core.run_threads([(lambda ask: lambda: [ask() for _ in range(2)])(ask) for ask in asks], timeout=300, yield_probability=0.3, seed=index)
                     run.evaluated("concurrent")
@@ -587,7 +667,7 @@ def run_case(run, tap, stream, index, rng):
                         elif exc is not None:
                             run.violation("concurrent", "%s: grid/scatter/predict/profile on one fitted instance raised %r when asked concurrently from %d threads" % (name, exc, nsets),
                                           {"estimator": name}, key="concurrent-shared-raised:" + name)
-                        elif any(dg != alone[k] for dg in res):
+                        elif any(not _same_values(dg, alone[k]) for dg in res):
                             run.violation("concurrent", "%s: grid/scatter/predict/profile on one fitted instance returned something else when %d threads asked for different regions at the same time" % (name, nsets),
                                           {"estimator": name, "threads": nsets}, key="concurrent-shared:" + name)
             run.count("yields_injected", getattr(core.run_threads, "yields_injected", 0) - run.counters.get("yields_injected", 0))
